@@ -29,7 +29,8 @@ PROFILES = {
     "C03": gen.profile(hooks=0.25, w=dict(NO_SIZE, cancel=12, cancel_group=6, flush=5), cbs="nppccx"),
     "C04": gen.profile(hooks=0.0, simple=0.4, multi=0.3, sizes=["1", "1", "2", "2", "3", "4", "inf"], set_sizes=[1, 2, 3, 4],
                        w=dict(set_size=2, spawn=22, spawn2=4, lock=7, gac=3, cancel=8, cancel_group=2, cancel_all=1)),
-    "C05": gen.profile(hooks=0.0, simple=0.0, w=dict(NO_SIZE, spawn=4, spawn2=24, cancel=8, cancel_group=2, cancel_all=1, gate=16)),
+    "C05": gen.profile(hooks=0.0, simple=0.0, w=dict(NO_SIZE, spawn=4, spawn2=24, cancel=8, cancel_group=2, cancel_all=1, gate=16),
+                       empty_elems=0.25),
     "C06": gen.profile(hooks=0.1, w=dict(NO_SIZE, cancel=22, flush=6, cancel_group=3, cancel_all=1)),
     "C07": gen.profile(hooks=0.3, w=dict(NO_SIZE, cancel_group=16, cancel_all=6, spawn=14, spawn2=14)),
     "C08": gen.profile(hooks=0.15, w=dict(NO_SIZE, gac=8, until_closed=5, cancel_group=6, cancel_all=3, spawn2=14),
